@@ -21,7 +21,7 @@ analysed code: its N legitimately depends on the options, so its message is norm
 presence is still gated and must still be monotone).
 """
 import glob, itertools, os, re
-from vlib import build, run, optws, testsnippets
+from vlib import build, run, testsnippets
 from vlib.core import Ctx, pmap, sha
 import time
 
